@@ -176,3 +176,130 @@ Proof.
   - destruct Hok as [_ _ _ _ [Hl _] _ _ _]. pose proof (Forall_inv Hl) as H1. cbn beta in H1. intros ->. cbn in H1. lia.
   - apply Hok.
 Qed.
+
+(* ---------- several peers ---------- *)
+Record peer := { p_inst : label; p_i : instance; p_ttl : N; p_its : list (N * list byte); p_now : N }.
+Definition peer_records (service : list label) (p : peer) : list rr := instance_records (p_i p) (p_inst p :: service) (p_ttl p) (p_its p).
+Definition peer_node (service : list label) (p : peer) : tnode :=
+  (get_key (p_inst p :: service), map (fun r => (r, Cached (p_now p + 2 * p_ttl p))) (peer_records service p)).
+Definition peer_ok (p : peer) : Prop :=
+  p_inst p <> [] /\ NoDup (i_ips (p_i p)) /\ NoDup (i_ports (p_i p)) /\
+  attributes (map (@snd N (list byte)) (p_its p)) = i_attrs (p_i p) /\ NoDup (map fst (i_attrs (p_i p))).
+Definition receive_all (service : list label) (peers : list peer) (st : store) : store :=
+  fold_left (fun s p => fold_left (fun s' r => add_cached s' r (p_now p)) (peer_records service p) s) peers st.
+
+Lemma find_node_app_none st st' k : find_node st k = None -> find_node (st ++ st') k = find_node st' k.
+Proof.
+  induction st as [|[k0 m0] r IH]; intros H; [reflexivity|]. cbn [find_node] in H. cbn [app find_node].
+  destruct (bytes_eqb k0 k); [discriminate|]. apply IH. exact H.
+Qed.
+Lemma peer_key_inj service a b : get_key (a :: service) = get_key (b :: service) -> a = b.
+Proof. rewrite !get_key_cons. intros H. apply app_inv_head in H. injection H as _ H. exact H. Qed.
+Lemma find_peer_none service done p : ~ In (p_inst p) (map p_inst done) ->
+  find_node (map (peer_node service) done) (get_key (p_inst p :: service)) = None.
+Proof.
+  induction done as [|q done IH]; intros H; [reflexivity|]. cbn [map find_node peer_node fst].
+  destruct (bytes_eqb (get_key (p_inst q :: service)) (get_key (p_inst p :: service))) eqn:E.
+  - apply bytes_eqb_eq in E. apply peer_key_inj in E. exfalso. apply H. left. exact E.
+  - apply IH. intros Hin. apply H. right. exact Hin.
+Qed.
+
+Lemma peer_records_facts service p r : In r (peer_records service p) -> rname r = p_inst p :: service /\ rcf r = false /\ rttl r = p_ttl p.
+Proof.
+  intros Hr. unfold peer_records, instance_records in Hr. rewrite !in_app_iff in Hr. destruct Hr as [Hr|[Hr|[<-|[]]]]; [| |repeat split];
+    apply in_map_iff in Hr; destruct Hr as (x & <- & _); repeat split.
+Qed.
+Lemma peer_records_ne service p : peer_records service p <> [].
+Proof. unfold peer_records, instance_records. destruct (i_ips (p_i p)); [destruct (i_ports (p_i p))|]; discriminate. Qed.
+
+Lemma receive_all_cons service p peers st :
+  receive_all service (p :: peers) st = receive_all service peers (fold_left (fun s' r => add_cached s' r (p_now p)) (peer_records service p) st).
+Proof. reflexivity. Qed.
+
+(* every announcement from a peer not heard before appends one node holding that peer's records *)
+Theorem receive_all_shape : forall service me ttl0 peers done,
+  NoDup (map p_inst (done ++ peers)) -> Forall peer_ok peers ->
+  receive_all service peers (fresh_store service me ttl0 ++ map (peer_node service) done)
+  = fresh_store service me ttl0 ++ map (peer_node service) (done ++ peers).
+Proof.
+  intros service me ttl0. induction peers as [|p peers IH]; intros done Hnd Hok; [rewrite app_nil_r; reflexivity|].
+  rewrite receive_all_cons.
+  set (st := fresh_store service me ttl0 ++ map (peer_node service) done).
+  assert (Hnone : find_node st (get_key (p_inst p :: service)) = None).
+  { unfold st. rewrite find_node_app_none.
+    - apply find_peer_none. rewrite map_app in Hnd. cbn [map] in Hnd. apply NoDup_remove_2 in Hnd. rewrite in_app_iff in Hnd. tauto.
+    - change (fresh_store service me ttl0) with [(get_key service, [(ptr_rr service me ttl0, Auth)])]. cbn [find_node].
+      rewrite get_key_cons, bytes_eqb_longer. reflexivity. }
+  destruct (Forall_inv Hok) as (Hi & Hips & Hports & _).
+  pose proof (ingest_new_owner (peer_records service p) st (get_key (p_inst p :: service)) (p_now p) [] Hnone) as G. cbn [app] in G.
+  rewrite G.
+  - assert (E : map (fun r => (r, Cached (p_now p + 2 * (if rcf r then 1 else rttl r)))) (peer_records service p)
+                = map (fun r => (r, Cached (p_now p + 2 * p_ttl p))) (peer_records service p)).
+    { apply map_ext_in. intros r Hr. destruct (peer_records_facts _ _ _ Hr) as (_ & -> & ->). reflexivity. }
+    rewrite E. pose proof (peer_records_ne service p) as Hne.
+    destruct (map (fun r => (r, Cached (p_now p + 2 * p_ttl p))) (peer_records service p)) eqn:Em;
+      [destruct (peer_records service p); [contradiction|discriminate]|]. rewrite <- Em.
+    fold (peer_node service p). unfold st. rewrite <- app_assoc.
+    change [peer_node service p] with (map (peer_node service) [p]). rewrite <- map_app.
+    rewrite (IH (done ++ [p])); [rewrite <- app_assoc; reflexivity| |exact (Forall_inv_tail Hok)].
+    rewrite <- app_assoc. exact Hnd.
+  - intros r Hr. destruct (peer_records_facts _ _ _ Hr) as (-> & _). reflexivity.
+  - apply instance_records_distinct; assumption.
+  - intros e r [] _.
+  - right. exact I.
+Qed.
+
+Definition peer_instance (p : peer) : instance :=
+  {| i_name := p_inst p; i_ips := i_ips (p_i p); i_ports := i_ports (p_i p); i_attrs := rev (i_attrs (p_i p)) |}.
+
+Definition pick_cached (now' : N) (n : tnode) : list rr :=
+  map fst (filter (fun e : rr * kind => match_filter filter_cached (snd e) now') (snd n)).
+Definition nonempty (g : list rr) : bool := match g with [] => false | _ => true end.
+Definition inst_of_group (service : list label) (g : list rr) : list instance :=
+  match from_records service g with Some i => [i] | None => [] end.
+Lemma known_services_unfold st service now' : node_exists st (get_key service) = true ->
+  known_services st service now' =
+  List.concat (map (inst_of_group service) (filter nonempty (map (pick_cached now') (filter (fun n => is_prefix (get_key service) (fst n)) st)))).
+Proof. intros H. unfold known_services, query. cbn [f_sub filter_cached]. rewrite H. reflexivity. Qed.
+
+Lemma pick_peer service p now' :
+  pick_cached now' (peer_node service p) = if now' <? p_now p + 2 * p_ttl p then peer_records service p else [].
+Proof.
+  unfold pick_cached, peer_node. cbn [snd]. generalize (peer_records service p). intros recs.
+  induction recs as [|r t IHr]; [destruct (now' <? p_now p + 2 * p_ttl p); reflexivity|].
+  cbn [map filter snd match_filter filter_cached f_cached andb]. destruct (now' <? p_now p + 2 * p_ttl p) eqn:E.
+  - cbn [map fst]. f_equal. exact IHr.
+  - exact IHr.
+Qed.
+
+Lemma peers_groups service now' : forall peers, Forall peer_ok peers ->
+  List.concat (map (inst_of_group service) (filter nonempty (map (pick_cached now')
+     (filter (fun n => is_prefix (get_key service) (fst n)) (map (peer_node service) peers)))))
+  = List.concat (map (fun p => if now' <? p_now p + 2 * p_ttl p then [peer_instance p] else []) peers).
+Proof.
+  induction peers as [|p peers IH]; intros Hok; [reflexivity|].
+  cbn [map filter]. unfold peer_node at 1. cbn [fst]. rewrite get_key_cons, is_prefix_app. fold (peer_node service p).
+  cbn [map]. rewrite pick_peer. destruct (Forall_inv Hok) as (Hi & Hips & Hports & Hattr & Hndk).
+  specialize (IH (Forall_inv_tail Hok)).
+  destruct (now' <? p_now p + 2 * p_ttl p).
+  - pose proof (peer_records_ne service p) as Hne. destruct (peer_records service p) as [|r0 rt] eqn:Er; [contradiction|].
+    cbn [filter nonempty map List.concat]. rewrite <- Er. unfold inst_of_group at 1. unfold peer_records at 1.
+    rewrite (from_instance_records (p_i p) service (p_inst p) (p_inst p :: service) (p_ttl p) (p_its p) eq_refl Hi Hattr Hndk).
+    cbn [app]. f_equal. exact IH.
+  - cbn [filter nonempty map List.concat app]. exact IH.
+Qed.
+
+(* after announcements from any number of different peers, get_known_services lists exactly those whose TTL has not elapsed *)
+Theorem known_after_announcements : forall service me ttl0 peers now',
+  NoDup (map p_inst peers) -> Forall peer_ok peers ->
+  known_services (receive_all service peers (fresh_store service me ttl0)) service now' =
+  List.concat (map (fun p => if now' <? p_now p + 2 * p_ttl p then [peer_instance p] else []) peers).
+Proof.
+  intros service me ttl0 peers now' Hnd Hok.
+  pose proof (receive_all_shape service me ttl0 peers [] Hnd Hok) as Hs. cbn [map app] in Hs. rewrite app_nil_r in Hs. rewrite Hs.
+  change (fresh_store service me ttl0) with [(get_key service, [(ptr_rr service me ttl0, Auth)])].
+  rewrite known_services_unfold by (apply node_exists_key with (m := [(ptr_rr service me ttl0, Auth)]); left; reflexivity).
+  cbn [app filter fst]. rewrite is_prefix_refl. cbn [map]. 
+  change (pick_cached now' (get_key service, [(ptr_rr service me ttl0, Auth)])) with (@nil rr).
+  cbn [filter nonempty]. apply peers_groups. exact Hok.
+Qed.
